@@ -35,12 +35,104 @@ def run(chk):
     chk.rule('C09-R6', 'galaxy mass and id are the host\'s (same row as the position)', 6)
     chk.rule('C09-R7', 'assembly: concatenate(cent[k], sat[k]) for every column and the id; Ncent = number of centrals; tracer dicts mapped by position; fast_concatenate copies array1 then array2 completely', 8)
     chk.assume('the numerical form of the occupation functions and slice end-points (<= at a zero-width slice) are not decided')
+    passes = {}
     for name in ('gen_cent', 'gen_sats'):
-        one(chk, Pass2(src, name), name)
+        passes[name] = Pass2(src, name)
+        one(chk, passes[name], name)
+    conformity(chk, passes)
     wrap_rule(chk)
     assembly(chk)
     from .c10 import concat
     concat(chk, R6='C09-R7', R1='C09-R7')
+
+
+def conformity(chk, passes):
+    """Satellite occupation with central-galaxy conformity: the `_EL` parameters (ELG satellites around an LRG central) apply to
+    hosts whose central carries the LRG keep code, the `_EE` parameters to hosts with the ELG code, every other host keeps the plain
+    ELG parameters.  The keep codes are read from gen_cent's decision chain; each conformity arm must test `keep_cent[i] == <code>`."""
+    Pc, Ps = passes['gen_cent'], passes['gen_sats']
+    codes = {}
+    for b in Pc.branches:
+        T = tracer_of(b['marker'])
+        if T and len(b['codes']) == 1:
+            codes[T] = b['codes'][0][1]
+    n = 0
+    for m in Ps.marker_order:
+        blk = Ps.markers[m]['block']
+        if blk is None:
+            continue
+        for st in walk_no_nested(blk):
+            if not (isinstance(st, ast.If) and 'keep_cent' in unparse(st.test)):
+                continue
+            par = getattr(st, '_parent', None)
+            if isinstance(par, ast.If) and st in par.orelse and 'keep_cent' in unparse(par.test):
+                continue                  # an elif arm: handled with its chain
+            c = st
+            while True:
+                n += 1
+                used = {x.id for b_ in c.body for x in ast.walk(b_) if isinstance(x, ast.Name)}
+                kinds = {mm.group(1) for u in used for mm in [re.match(r'^.*_(E[EL])$', u)] if mm}
+                want = None
+                if kinds == {'EL'}:
+                    want = codes.get('LRG')
+                elif kinds == {'EE'}:
+                    want = codes.get('ELG')
+                t = c.test
+                okt = isinstance(t, ast.Compare) and len(t.ops) == 1 and isinstance(t.ops[0], ast.Eq) and unparse(t.left) == f'keep_cent[{Ps.i_c}]' \
+                    and want is not None and unparse(t.comparators[0]) == want
+                chk.check(okt, 'C09-R2', GH, 'gen_sats', f'conformity arm {sorted(kinds)} applies to hosts whose central has keep code {want}',
+                          unparse(t), f'the arm that uses the {sorted(kinds)} parameters runs under "{unparse(t)}" (need keep_cent[{Ps.i_c}] == {want}): hosts with another '
+                          'central (or none of that kind) get this conformity occupation, so switching that tracer on changes the ELG satellites', node=c)
+                if len(c.orelse) == 1 and isinstance(c.orelse[0], ast.If) and 'keep_cent' in unparse(c.orelse[0].test):
+                    c = c.orelse[0]
+                    continue
+                break
+    if n == 0:
+        raise AnalysisError('gen_sats: no conformity arms (tests on keep_cent) found')
+    # sibling agreement: an arm re-derives quantities of the plain occupation (M1_E_temp, base_p_E) with the conformity parameters in
+    # place of the plain ones and nothing else changed -- the same assembly-bias / shear / rank terms at the same host
+    def canon(e):
+        if isinstance(e, ast.BinOp) and isinstance(e.op, (ast.Add, ast.Mult)):
+            terms = []
+
+            def flat(x):
+                if isinstance(x, ast.BinOp) and type(x.op) is type(e.op):
+                    flat(x.left)
+                    flat(x.right)
+                else:
+                    terms.append(canon(x))
+            flat(e)
+            return ('+' if isinstance(e.op, ast.Add) else '*').join(sorted(terms)).join('()')
+        if isinstance(e, ast.BinOp):
+            return f'({canon(e.left)}{type(e.op).__name__}{canon(e.right)})'
+        if isinstance(e, ast.Call):
+            return f'{unparse(e.func)}({",".join(canon(a) for a in e.args)})'
+        if isinstance(e, ast.Name):
+            return re.sub(r'_E[EL]$', '_E', e.id)
+        return unparse(e)
+    for m in Ps.marker_order:
+        blk = Ps.markers[m]['block']
+        if blk is None:
+            continue
+        base = {}
+        for st in blk.body:
+            if isinstance(st, ast.Assign) and len(st.targets) == 1 and isinstance(st.targets[0], ast.Name):
+                base.setdefault(st.targets[0].id, st.value)
+            if isinstance(st, ast.If) and 'keep_cent' in unparse(st.test):
+                c = st
+                while True:
+                    for a_ in c.body:
+                        if isinstance(a_, ast.Assign) and len(a_.targets) == 1 and isinstance(a_.targets[0], ast.Name) and a_.targets[0].id in base:
+                            v_ = a_.targets[0].id
+                            same = canon(a_.value) == canon(base[v_])
+                            chk.check(same, 'C09-R2', GH, 'gen_sats', f'conformity arm: {v_} is the plain definition with the conformity parameters substituted', '',
+                                      f'under "{unparse(c.test)}" {v_} = {unparse(a_.value)[:110]} differs from the plain {unparse(base[v_])[:110]} by more than the '
+                                      '_EL/_EE parameters: a secondary-bias term (assembly bias, shear) is applied to hosts without a central but not to hosts with one, '
+                                      'so the slice width is not the occupation at the host\'s ranks', node=a_)
+                    if len(c.orelse) == 1 and isinstance(c.orelse[0], ast.If) and 'keep_cent' in unparse(c.orelse[0].test):
+                        c = c.orelse[0]
+                        continue
+                    break
 
 
 def one(chk, P, name):
